@@ -588,6 +588,7 @@ pub fn run_case(tier: &str, seed: u64, idx: u64) -> CaseOut {
                 }
             }).unwrap()
         };
+        let mut closer = Some(closer);
         if let Some(g) = gate {
             // the lock is released but the old handle is still joining its worker: a new owner
             // must already get a consistent database
@@ -596,9 +597,23 @@ pub fn run_case(tier: &str, seed: u64, idx: u64) -> CaseOut {
                 match DB::open(options(&fs, &db_path, memtable)) {
                     Ok(db) => {
                         verify_contents(&mut out, &db, &model, "opened-while-old-handle-was-still-closing", &ctx);
-                        drop(db);
                         out.nontrivial(format!("open-during-close/{}", if use_tmpfs { "tmpfs" } else { "osfs" }));
                         out.add("opens_during_close", 1);
+                        // the old handle now finishes closing; whatever it still does must not
+                        // take the database away from the new owner
+                        d.release(g);
+                        if let Some(c) = closer.take() {
+                            let _ = c.join();
+                        }
+                        {
+                            let _g3 = watch::enter("open(third-while-second-holds)");
+                            if let Ok(third) = DB::open(options(&fs, &db_path, memtable)) {
+                                out.violate("C17/second-open-succeeded-while-open/after-previous-owner-finished-closing", json!({"ctx": ctx, "round": round, "files": listing(&scratch.dir)}));
+                                drop(third);
+                            }
+                        }
+                        verify_contents(&mut out, &db, &model, "after-previous-owner-finished-closing", &ctx);
+                        drop(db);
                     }
                     Err(e) => out.violate("C17/open-refused-after-lock-was-released", json!({"ctx": ctx, "error": e.to_string()})),
                 }
@@ -607,7 +622,9 @@ pub fn run_case(tier: &str, seed: u64, idx: u64) -> CaseOut {
             }
             d.release(g);
         }
-        let _ = closer.join();
+        if let Some(c) = closer.take() {
+            let _ = c.join();
+        }
 
         let n_racers = rng.range(2, 8) as usize;
         let barrier = Arc::new(Barrier::new(n_racers));
